@@ -148,7 +148,7 @@ impl Prop for C12 {
         "case = (segment list as in C02, sequence of 0..=60 (thorough 300) non-NaN arguments from the list's alphabet built from steps (absolute, relative, repeat, first/last, onto an end); half the cases sorted non-decreasing (with repeats), half arbitrary order). Oracle: output i must have the bits of segments[select(ends, max(xs[..=i]))].poly.evaluate(xs[i]) (selection model on the running maximum) and, for non-decreasing sequences, of Piecewise::evaluate(xs[i]); same length and order; laziness: the input is wrapped in a counting iterator; after pulling j outputs j (or, tolerating one argument of look-ahead, j+1) inputs have been consumed. Non-trivial: >=2 segments and the sequence crosses a breakpoint or hits an end exactly. Extra: all sequences of length 3 over the full alphabet for all sorted multisets of <=3 ends over the 5-point lattice.".into()
     }
     fn cases(&self, tier: Tier) -> u64 {
-        tier.pick(200_000, 5_000_000)
+        tier.pick(600_000, 6_000_000)
     }
     fn strategy(&self, tier: Tier) -> BoxedStrategy<Case> {
         (pw_spec(tier.pick(8, 24)), vec(step(), 0..=tier.pick(60, 300)), vec(gen::any_non_nan(), 3), any::<bool>())
